@@ -1,0 +1,9 @@
+//go:build verif
+
+package setting
+
+// Machine-checked contracts (comment-only; compiled only with -tags verif).
+// Assumed: the accessors of a Setting only read.
+//@ pureiface Setting Get
+//@ trusted func New(s) (r)
+//@   ensures r != nil
